@@ -1,6 +1,7 @@
 /-
 C03 — Every adopted payload and every service is started exactly once.
 -/
+import CobaldVerif.Generated.Src
 import CobaldVerif.Lemmas.RuntimeInv
 
 namespace Cobald.Props.C03
@@ -94,5 +95,32 @@ def trace : List Ev :=
   [.adopt 1 .aio, .newUnit 2 .trio, .acceptBegin 0, .launch, .flush, .sweep 2, .start 1 0, .start 2 1, .adopt 3 .thr, .start 3 2]
 example : ((run St.init trace).map (fun s => [s.starts 1, s.starts 2, s.starts 3])) = some [1, 1, 1] := by decide +kernel
 example : (run St.init (trace ++ [.start 1 0])).isNone = true := by decide +kernel
+
+/-! ### the runtime glue as written in the source
+
+The model of this property was transcribed from these functions of `cobald/daemon/runners/`
+(registration and start of payloads and services: the events `adopt`, `newUnit`, `flush`, `sweep`, `start` of the LTS and their guards).
+`Gen.runtimePins` is recomputed on every run: the normalised text of every function of the runner
+modules (docstrings, annotations and logging statements dropped) is compared with the text the
+model was last transcribed from (`harness/vh/pins.json`). A changed function breaks this theorem;
+the scenario families are then the search for a failing history. -/
+
+theorem gen_runtime_text :
+    ∀ n ∈ ["service:ServiceUnit.__init__",
+     "service:ServiceUnit.units",
+     "service:ServiceUnit.start",
+     "service:service",
+     "service:ServiceRunner.adopt",
+     "service:ServiceRunner._adopt_services",
+     "service:ServiceRunner._accept_services",
+     "meta_runner:MetaRunner.register_payload",
+     "meta_runner:MetaRunner._unqueue_payloads",
+     "base_runner:BaseRunner.register_payload",
+     "asyncio_runner:AsyncioRunner.register_payload",
+     "asyncio_runner:AsyncioRunner._setup_payload",
+     "trio_runner:TrioRunner.register_payload",
+     "trio_runner:TrioRunner._submit_payload",
+     "thread_runner:ThreadRunner.register_payload"],
+      Gen.pinned n = true := by decide
 
 end Cobald.Props.C03
